@@ -270,7 +270,15 @@ def fast_path_applies(case):
     """re-statement of the gate of Model::try_optimization_* after commit 12905e9 (model/core.rs:1756-1805): the fast path is
     consulted only for minimize/maximize, only when no constraint AST is pending, i.e. every constraint was posted at the
     props level (m.props.* / conversions, which post propagators directly)"""
-    return "fp" in case.flags and case.entry[0] in ("min", "max") and all(r.route in ("props", "conv") for r in case.rows)
+    def pending(r):
+        # FloatDispatch.pending_ast: m.lin_* and fluent posts leave a pending AST, except the fluent `Var == Val` / `Val == Var`
+        # between a plain variable and a plain constant, which is materialised at once (runtime_api/mod.rs, post_constraint_kind)
+        if r.route in ("props", "conv"): return False
+        if r.route == "new" and r.linear and r.rel == "eq" and \
+                ((_plain_var(r.extra["lhs"]) and _plain_const(r.extra["rhs"])) or (_plain_var(r.extra["rhs"]) and _plain_const(r.extra["lhs"]))):
+            return False
+        return True
+    return "fp" in case.flags and case.entry[0] in ("min", "max") and not any(pending(r) for r in case.rows)
 
 # ------------------------------------------------------------------------------------------------ generators
 NICE = [Fraction(k, 4) for k in range(-12, 13) if k != 0]
